@@ -647,6 +647,134 @@ def law_check(real: Real, dn: str, src: str) -> tuple[str, str | None, dict[str,
 	return 'ok', None, {}
 
 
+def _history_probe(real: Real, parts: list[str], mode: str) -> tuple[str, dict[str, Any]]:
+	"""Build a source on the fly, lex it on the shared instances, check every raw token's span against an independent
+	computation from the text — and let the source string die on return (no reference survives: the verdict carries only
+	short excerpts). Returns ('ok' | 'raises:<exc>' | 'bad', detail)."""
+	source = ''.join(parts)
+	lines = source.split('\n')
+	T = real.TokenTypes
+	try:
+		if mode == 'tokenizer':
+			# Tokenizer.parse goes through the same lexer; NEWLINE/INDENT/DEDENT reuse their line break's map: check the others
+			toks = [t for t in real.tokenizers['py'].parse(source) if t.type not in (T.NewLine, T.Indent, T.Dedent)]
+			raw = False
+		else:
+			toks = real.lexers['py'].parse_impl(source)
+			raw = True
+	except Exception as e:  # noqa: BLE001
+		return f'raises:{exc_enum(e)}', {'error': repr(e)[:200]}
+	pos = 0
+	for t in toks:
+		text = '-' if (t.type == T.Minus and t.string == real.marker) else t.string
+		m = t.source_map
+		try:
+			if m.begin_line == m.end_line:
+				got = lines[m.begin_line][m.begin_column:m.end_column]
+			else:
+				got = '\n'.join([lines[m.begin_line][m.begin_column:], *lines[m.begin_line + 1:m.end_line], lines[m.end_line][:m.end_column]])
+			ok = got == text and min(m) >= 0
+		except IndexError:
+			got, ok = '<span outside of the source>', False
+		if raw and ok:
+			# raw tokens tile the source: the span must also start where the previous one ended
+			begin = sum(len(ln) + 1 for ln in lines[:m.begin_line]) + m.begin_column
+			ok = begin == pos
+			pos = begin + len(text)
+		if not ok:
+			return 'bad', {'token': repr(t)[:160], 'addressed': got[:80], 'lines': len(lines), 'chars': len(source)}
+	return 'ok', {}
+
+
+def _history_parts(recipe: dict[str, Any]) -> list[str]:
+	"""A fresh list of freshly built strings (f-strings / joins), total length exactly recipe['total']."""
+	r = random.Random(recipe['seed'])
+	total = recipe['total']
+	parts: list[str] = []
+	size = 0
+	k = 0
+	while True:
+		kind = recipe['kind']
+		if kind == 'short':
+			line = f'v{k % 10} = {r.randint(0, 9)}\n'
+		elif kind == 'long':
+			line = f'w{k % 10} = f({r.randint(0, 9)}, -1) + g[{k % 7}] # {"c" * r.randint(0, 30)}\n'
+		elif kind == 'blocks':
+			line = f'{"	" * (k % 3)}if a{k % 5}: x = """{"q" * r.randint(0, 5)}\n{"r" * r.randint(0, 9)}"""\n'
+		else:
+			line = ''.join(r.choice(['a = 1\n', '\n', '# c\n', 'b = (1,\n  2)\n', f'n{k} -= -{k}\n', '    y\n']) for _ in range(3))
+		if size + len(line) + 2 > total:
+			break
+		parts.append(line)
+		size += len(line)
+		k += 1
+	# pad to the exact total with a final comment (no trailing newline)
+	parts.append('#' + 'p' * (total - size - 1))
+	return parts
+
+
+def _history_alone(recipe: dict[str, Any]) -> str:
+	"""The same recipe as the only source of a fresh process (module-level state of the real code cannot be reset in-process)."""
+	import subprocess
+	import sys
+	code = ('import json,sys\n'
+		'from harness import c13\n'
+		'recipe = json.loads(sys.argv[1])\n'
+		'v, _ = c13._history_probe(c13.Real(), c13._history_parts(recipe), recipe["mode"])\n'
+		'print("VERDICT", v)\n')
+	env = dict(os.environ, PYTHONPATH=os.pathsep.join([os.path.join(common.VERIF, 'compat'), common.REPO, common.VERIF]), PYTHONDONTWRITEBYTECODE='1')
+	try:
+		p = subprocess.run([sys.executable, '-c', code, json.dumps(recipe)], cwd=common.REPO, env=env, capture_output=True, text=True, timeout=120)
+	except Exception as e:  # noqa: BLE001
+		return f'unknown:{type(e).__name__}'
+	for line in p.stdout.splitlines():
+		if line.startswith('VERDICT '):
+			return line[8:]
+	return 'unknown'
+
+
+def search_history(ctx: Ctx, real: Real) -> SearchResult:
+	"""History in one process: sources are generated, lexed, checked and DROPPED one by one (so that a later source can land
+	at the address of an earlier one), with equal total length but different line structure."""
+	import gc
+	rng = ctx.sub_rng('history')
+	res = SearchResult('span law under a history: sources built on the fly, lexed on shared instances and dropped one by one (equal length, different line structure; address reuse), every token span against an independent computation from the text')
+	hist: Counter[str] = Counter()
+	keys: set[str] = set()
+	recipes: list[dict[str, Any]] = []
+
+	totals = [64, 200, 520, 1100, 2300] if not ctx.thorough else [64, 200, 520, 1100, 2300, 4700, 9500]
+	kinds = ['short', 'long', 'blocks', 'mixed']
+	n = ctx.scale(360, 3000)
+	gc.collect()
+	for i in range(n):
+		total = totals[(i // 8) % len(totals)]
+		recipe = {'seed': rng.randrange(1 << 30), 'kind': kinds[i % 4] if i % 3 else rng.choice(kinds), 'total': total,
+			'mode': 'tokenizer' if i % 5 == 4 else 'lexer'}
+		recipes.append(recipe)
+		res.cases += 1
+		verdict, detail = _history_probe(real, _history_parts(recipe), recipe['mode'])
+		hist[f"{recipe['mode']}:{verdict}"] += 1
+		hist[f'total{total}'] += 1
+		if verdict != 'ok':
+			# is it the history? the same recipe, alone, through fresh instances
+			alone = _history_alone(recipe)
+			key = 'span-history' if alone == 'ok' else ('span' if verdict == 'bad' else f'lexer-{verdict}')
+			if key not in keys:
+				keys.add(key)
+				res.findings.append(Finding(key=key, what=('a token span is wrong (or the lexer raises) only after earlier sources were lexed in the same process'
+					if key == 'span-history' else 'a token span does not address its text'),
+					replay={'history': recipes[-6:], 'failing': recipe, 'verdict': verdict, 'alone': alone, **detail,
+						'source_head': ''.join(_history_parts(recipe))[:300],
+						'how': 'harness.c13: for each recipe of `history` in order: _history_probe(real, _history_parts(recipe), recipe["mode"]) on one shared Real(); `alone` = the failing recipe as the only source of a fresh process'}))
+		if len(res.samples) < 2:
+			res.samples.append({'recipe': recipe, 'verdict': verdict})
+	res.distinct = len({(r['seed'], r['kind'], r['total']) for r in recipes})
+	res.histogram = dict(hist)
+	res.note = 'each source is garbage before the next one is built; recipes (seed, kind, total length) reproduce the history'
+	return res
+
+
 def search_laws(ctx: Ctx, real: Real) -> SearchResult:
 	rng = ctx.sub_rng('laws')
 	res = SearchResult('concat law (raw token strings, unary marker read as "-", reproduce the source) and span law (each raw token\'s (line, col) span addresses its text) on the real Lexer.parse_impl')
@@ -714,6 +842,7 @@ STATEMENTS = {
 	'quote_closing_rule / escape_run_is_bsRun': 'declarative closing rule: the literal ends right after the FIRST occurrence of the closing sequence at or after the body start that is preceded, inside the body, by an even run of backslashes (IsCloser / bsRun); none => unterminated; the model\'s escape count equals the declarative run',
 	'first_token_spec / lex_meets_spec': 'maximal munch, declaratively: dispatch = first accepting domain of the analyse order; run tokens are the longest prefix inside their alphabet; symbols the longest combined symbol (3, then 2 characters) else one character; comments / literals by the two rules above; the whole raw token sequence of parse_impl is described token by token (lex ⊆ spec)',
 	'layout_closure': 'LayoutEq = equivalence generated by the layout steps (blanks / blank lines, trailing comment, comment-only line, inserted or removed, and re-indentation); layout-equivalent sources have the same Tokenizer.parse up to source maps',
+	'source_map_pure': 'the modelled SourceMap.make is a function of (source, begin, end) with no state argument; tied by the translator\'s purity scan of token.py (module/class-level mutable state, global, caching decorators are refused) and by the history search',
 }
 
 
@@ -730,7 +859,7 @@ def run(ctx: Ctx) -> int:
 	with ctx.timed('correspondence'):
 		streams = [stream_lex(ctx, real), stream_real(ctx, real), stream_malformed(ctx, real)]
 	with ctx.timed('search'):
-		searches = [search_cpython(ctx, real), search_layout(ctx, real), search_token_layout(ctx, real), search_laws(ctx, real)]
+		searches = [search_cpython(ctx, real), search_layout(ctx, real), search_token_layout(ctx, real), search_laws(ctx, real), search_history(ctx, real)]
 	return common.finish(ctx, proof, streams, searches,
 		translate_ok=translate_ok, translate_msg=translate_msg,
 		statements=STATEMENTS,
